@@ -20,6 +20,9 @@ SSA = XP + "claim/syncer_ssa.go"
 OFF = XP + "offered/reconciler.go"
 MUTANTS = [
     # (name, file, old text, new text, formulas that must fire)
+    ("revert-835e9e0-deleting-condition-lost", REC,
+     "\t\tcm.SetConditions(xpv1.Deleting(), xpv1.ReconcileSuccess())\n", "\t\tcm.SetConditions(xpv1.ReconcileSuccess())\n",
+     ["Deleting.Condition.AfterFinalizerRemoval", "Repair.Deleted"]),
     ("pause-ignored-while-deleting", REC,
      "\tif meta.IsPaused(cm) {", "\tif meta.IsPaused(cm) && !meta.WasDeleted(cm) {",
      ["Paused.Calls", "Paused.OnlyStatus"]),
@@ -76,13 +79,10 @@ MUTANTS = [
 ]
 
 
-# candidate repairs of the findings F-a, F-b, F-c of ClaimLifecycle.tla (python3 checks/x06_selftest.py --fixes): with them
-# the five fingerprints must disappear and nothing else may appear; the package's unedited unit tests must still pass
+# candidate repairs of the open findings F-b (D26), F-c (D27) of ClaimLifecycle.tla (python3 checks/x06_selftest.py --fixes): with them
+# their fingerprints must disappear and nothing else may appear; the package's unedited unit tests must still pass
 WAIT = "\t\t\t\tlog.Debug(\"Waiting for the XR to finish deleting (foreground deletion)\")\n"
 FIXES = [
-    # F-a: RemoveFinalizer's Update replaced the in-memory claim; set Deleting again before the last status write
-    (REC, "\t\tlog.Debug(\"Successfully deleted claim\")\n\t\tcm.SetConditions(xpv1.ReconcileSuccess())\n",
-     "\t\tlog.Debug(\"Successfully deleted claim\")\n\t\tcm.SetConditions(xpv1.Deleting(), xpv1.ReconcileSuccess())\n"),
     # F-c: waiting for the foreground deletion is not an error: do not leave the error of an earlier reconcile
     (REC, WAIT + "\t\t\t\treturn reconcile.Result{Requeue: true}, errors.Wrap(r.client.Status().Update(ctx, cm), errUpdateClaimStatus)\n",
      # (only an error is replaced: TestReconcile/ForegroundDeleteWaitForCompositeDeletion pins that a claim without a Synced
@@ -98,7 +98,7 @@ FIXES = [
     (REC, "\t\t\tif requiresForegroundDeletion {\n" + WAIT + "\t\t\t\treturn reconcile.Result{Requeue: true}, nil\n",
      "\t\t\tif requiresForegroundDeletion && !kerrors.IsNotFound(err) {\n" + WAIT + "\t\t\t\treturn reconcile.Result{Requeue: true}, nil\n"),
 ]
-FINDINGS = ["Deleting.Condition.AfterFinalizerRemoval", "Finalizer.XRFirst.CacheMiss", "Repair.Orphan.CacheMiss", "Repair.Foreground.StaleError"]
+FINDINGS = ["Finalizer.XRFirst.CacheMiss", "Repair.Orphan.CacheMiss", "Repair.Foreground.StaleError"]
 
 
 def build_fixed(ctx):
